@@ -39,7 +39,7 @@ def _structural_cases(family, method, rng, quick):
     return [c for c in _collected if c[1] == method or family in ("null",)]
 
 
-def run(pid, families, tier, seed, ev, maxout):
+def run(pid, families, tier, seed, ev, maxout, extra=None):
     """families: list of (family, method).  Returns violations."""
     rng = random.Random(seed)
     sc = V.scratch(pid.lower())
@@ -52,6 +52,7 @@ def run(pid, families, tier, seed, ev, maxout):
         except Exception as e:
             raise V.HarnessError("encoder suite for %s failed: %r" % (method, e))
         rng.shuffle(cases)
+        cases = [c for c in (extra or []) if c[1] == method] + cases
         kept = 0
         for (label, meth, stream, expected) in cases:
             if len(expected) > maxout:
